@@ -301,6 +301,13 @@ pub fn encode_table(rng: &mut Rng, cmp: &CmpKind, es: &[(Vec<u8>, Vec<u8>)], mut
             for o in offsets {
                 fb.extend_from_slice(&o.to_le_bytes());
             }
+            if mutate && rng.chance(1, 4) {
+                // 1..3 slack bytes between the offset array and the trailer: the array is no longer a whole number of
+                // 4-byte entries, so "entry number num" (the end of the last filter) is read from garbage
+                for _ in 0..rng.range(1, 3) {
+                    fb.push(*rng.pick(&[0xffu8, 0x7f, 0x00, 0x09]));
+                }
+            }
             fb.extend_from_slice(&array_start.to_le_bytes());
             fb.push(*base_lg as u8);
             if mutate && rng.chance(1, 3) {
